@@ -85,10 +85,24 @@ func init() {
 		for _, a := range L(op, "hook") {
 			hook = append(hook, a.(string))
 		}
+		if B(op, "absprog") && len(hook) > 0 {
+			/* a hook named by its full path instead of being found through PATH */
+			hook[0] = absoluteProgram(hook[0])
+			op["hook"] = toAnyList(hook)
+		}
 		saved := config.Parsed.Media.Hook
 		config.Parsed.Media.Hook = hook
 		defer func() { config.Parsed.Media.Hook = saved }()
 		mt := &mime.MediaType{Essence: S(op, "essence"), Supertype: S(op, "supertype"), Subtype: S(op, "subtype")}
+		if raw, ok := op["mediatype"].(string); ok {
+			/* the media type as a link carries it: what mime.Parse makes of it, "unknown" when it
+			   makes nothing of it (Link.Select) */
+			if parsed, err := mime.Parse(raw); err == nil {
+				mt = parsed
+			} else {
+				mt = mime.Unknown()
+			}
+		}
 		frames := ui.VerifOpenExternally(S(op, "link"), mt, 80, 10)
 		op["frames"] = toAnyList(frames)
 		raw, err := os.ReadFile(file)
@@ -256,16 +270,48 @@ func genC19Colours(r *rand.Rand, n int, emit func(Op)) {
 }
 
 func genC20(r *rand.Rand, n int, emit func(Op)) {
-	args := []string{"%url", "%url", "%mimetype", "%subtype", "%supertype", "--", "-x", "x%url", "%url ", "%URL", "%urls", "%%url", "", "%mimetype;q", "$(%url)", "a b"}
+	args := []string{"%url", "%url", "%mimetype", "%subtype", "%supertype", "--", "-x", "x%url", "%url ", "%URL", "%urls", "%%url", "", "%mimetype;q", "$(%url)", "a b",
+		/* placeholders inside longer arguments, next to each other, nearly spelled */
+		"--title=%subtype", "%supertype/%subtype", "%url%url", "--url=%url", "%mimetype %url", " %url", "%url\n", "%Url", "%u", "%", "%%", "url", "$url", "%{url}", "%mimetypes", "%sub", "%type", "%supertype%subtype", "\"%url\"", "'%url'"}
 	links := []string{"https://example.org/a.png", "a b c", "'; rm -rf ~ #", "$(touch /tmp/pwn)", "-rf", "--help", "%url", "%mimetype", "line1\nline2", "\"quoted\"", "`id`", "é漢😀", "", "https://h/%75rl?x=%url", "a\tb"}
+	links = append(links, hostileLinks...)
+	placeholders := []string{"%url", "%mimetype", "%subtype", "%supertype"}
 	for i := 0; i < n; i++ {
 		progs := []string{"verifdump", "verifdump", "verifdump", "%url", "%mimetype"}
 		hook := []any{pick(r, progs)}
-		for k := r.Intn(5); k > 0; k-- {
-			hook = append(hook, pick(r, args))
+		switch weighted(r, 6, 1, 1, 1) {
+		case 0:
+			for k := r.Intn(5); k > 0; k-- {
+				hook = append(hook, pick(r, args))
+			}
+		case 1: // one placeholder, repeated
+			ph := pick(r, placeholders)
+			for k := 2 + r.Intn(3); k > 0; k-- {
+				hook = append(hook, ph)
+			}
+		case 2: // every placeholder, twice, in some order
+			all := append(append([]string{}, placeholders...), placeholders...)
+			r.Shuffle(len(all), func(a, b int) { all[a], all[b] = all[b], all[a] })
+			for _, a := range all {
+				hook = append(hook, a)
+			}
+		case 3: // every placeholder but the link: it goes to standard input
+			for _, a := range placeholders[1:] {
+				hook = append(hook, a, pick(r, args[5:]))
+			}
 		}
 		sup := pick(r, []string{"image", "video", "text", "*", "%url"})
 		sub := pick(r, []string{"png", "*", "html", "%subtype"})
-		emit(Op{"op": "hook", "hook": hook, "link": pick(r, links), "essence": sup + "/" + sub, "supertype": sup, "subtype": sub})
+		op := Op{"op": "hook", "hook": hook, "link": pick(r, links), "essence": sup + "/" + sub, "supertype": sup, "subtype": sub}
+		if r.Intn(3) == 0 {
+			/* a media type as written in a document: parameters, odd case, several slashes, none at all */
+			if mt, ok := pick(r, mediaTypePool).(string); ok {
+				op["mediatype"] = mt
+			}
+		}
+		if r.Intn(5) == 0 {
+			op["absprog"] = true
+		}
+		emit(op)
 	}
 }
